@@ -119,8 +119,35 @@ def report_shared_results(prog, rep, pid):
     rep.floor('definitions examined for result caching', n, 1)
 
 
+def report_transform_inputs(prog, rep, pid, interps):
+    """`clean-transform-input`: no transform reads a work buffer that still holds part of an earlier transform next to freshly
+    stored values (a buffer re-bound to its own FFT and only partly rewritten: the zero padding is gone after the first use)"""
+    n = 0
+    bad = {}
+    for itp in interps:
+        for e in itp.events:
+            if e[0] == 'fft' and isinstance(e[6], type(None)) is False and getattr(e[6], 'cover', None) is not None:
+                n += 1
+            elif e[0] == 'fft-stale-input':
+                bad.setdefault((e[3], normalise(e[1])), (e[1], e[2]))
+    if not n and not bad:
+        return
+    rep.rule('clean-transform-input', 'for every transform whose input buffer is tracked piece by piece (allocated by zeros, written by '
+             'slice stores, possibly re-bound to a transform output inside a loop): in no state reaching the call does the buffer hold '
+             'an earlier transform output in one piece and other values in another')
+    for (fn, text), (node, desc) in sorted(bad.items(), key=lambda kv: kv[0]):
+        f = _func(prog, fn)
+        rep.violation('clean-transform-input', fn, text, 'on a later pass of the loop the transformed buffer is %s: part of it is the output '
+                      'of the previous transform (the name was re-bound to its own FFT and only partly rewritten), so the sequence that '
+                      'is transformed is not the zero-padded vector' % desc, loc(f.mod, node) if f is not None else '')
+    if not bad:
+        rep.proved('clean-transform-input', pid, 'transform inputs', '%d transform calls on tracked buffers: none mixes an earlier '
+                   'spectrum with new values' % n)
+
+
 def report(prog, rep, pid, interps):
     report_shared_results(prog, rep, pid)
+    report_transform_inputs(prog, rep, pid, interps)
     scope = SCOPE.get(pid)
     if not scope:
         return
